@@ -185,6 +185,12 @@ class ExternalVariableCollector(NodeVisitor):
             self.provenance[node.name] = "body"
             self.assigned.add(node.name)
 
+    def visit_ClassDef(self, node):
+        # The class name is a variable of the function; the class body is a
+        # scope of its own and is not the function's business.
+        self.provenance[node.name] = "body"
+        self.assigned.add(node.name)
+
     def visit_Import(self, node):
         self.visit_ImportFrom(node)
 
@@ -635,6 +641,11 @@ class PteraTransformer(NodeTransformer):
             ),
             node,
         )
+
+    def visit_ClassDef(self, node):
+        # Class bodies are left alone (names like __ptera_frame would be
+        # mangled inside them)
+        return node
 
     def visit_For(self, node):
         new_body = self.generate_interactions(node.target)
